@@ -16,7 +16,11 @@ Cases == {[kinds |-> k, collect |-> c, corr |-> co, dup |-> FALSE] :
             k \in UNION {[1..n -> Kinds] : n \in 1..MaxRules}, c \in BOOLEAN, co \in {"none", "nogen", "gen"}}
          \cup {[kinds |-> k, collect |-> c, corr |-> "none", dup |-> TRUE] :
             k \in {kk \in UNION {[1..n -> Kinds] : n \in 2..MaxRules} : Repeats(kk)}, c \in BOOLEAN}
-ASSUME LET S == SetToSeq({c @@ [noteq |-> FALSE] : c \in Cases} \cup NeqCases) IN ndJsonSerialize(IOEnv.VERIF_OUT, [i \in 1..Len(S) |-> [id |-> i] @@ S[i]])
+\* okdrop: a rule all of whose detection items the pipeline drops - it is still a rule of the collection: a query per
+\* condition, or an error record
+DropCases == {[kinds |-> k, collect |-> c, corr |-> "none", dup |-> FALSE] :
+               k \in UNION {[1..n -> {"ok1", "okdrop", "failP"}] : n \in 1..3}, c \in BOOLEAN}
+ASSUME LET S == SetToSeq({c @@ [noteq |-> FALSE] : c \in Cases \cup DropCases} \cup NeqCases) IN ndJsonSerialize(IOEnv.VERIF_OUT, [i \in 1..Len(S) |-> [id |-> i] @@ S[i]])
 Init == x = 0
 Next == UNCHANGED x
 =============================================================================
